@@ -11,6 +11,7 @@ import (
 	"bytes"
 	"errors"
 	"fmt"
+	"hash/fnv"
 	"sort"
 	"strings"
 	"time"
@@ -83,7 +84,31 @@ func (v Violation) Has(prop string) bool {
 }
 
 func viol(rule string, props string, format string, a ...any) Violation {
-	return Violation{Rule: rule, Props: strings.Split(props, ","), Detail: fmt.Sprintf(format, a...)}
+	return Violation{Rule: rule, Props: strings.Split(props, ","), Detail: shorten(fmt.Sprintf(format, a...), 900)}
+}
+
+// shorten keeps long details (listings of hundreds of ids) readable: head,
+// tail and a digest of the whole, so that different texts stay different.
+func shorten(s string, max int) string {
+	if len(s) <= max {
+		return s
+	}
+	h := fnv.New32a()
+	h.Write([]byte(s))
+	return fmt.Sprintf("%s ...[%d bytes, fnv %08x]... %s", s[:max/2], len(s), h.Sum32(), s[len(s)-max/2:])
+}
+
+// nameList prints a list of names in full when short, else head, size and digest.
+func nameList(names []string) string {
+	if len(names) <= 16 {
+		return fmt.Sprintf("%q", names)
+	}
+	h := fnv.New32a()
+	for _, n := range names {
+		h.Write([]byte(n))
+		h.Write([]byte{0})
+	}
+	return fmt.Sprintf("%q...(n=%d fnv %08x)", names[:8], len(names), h.Sum32())
 }
 
 type Model struct {
@@ -101,7 +126,7 @@ type Model struct {
 	sweepAllowed bool
 	evictMin     int
 	evictMax     int
-	newAnon      []*Msg // enqueued without explicit id: id to be adopted
+	newAnon      []*Msg        // enqueued without explicit id: id to be adopted
 	fresh        map[*Msg]bool // inserted by the operation being compared
 	doubtDeq     *doubtDequeue
 
